@@ -15,8 +15,11 @@ FIXED = [
     ("model G4 Real x; Real z; Real _v; equation der(x) = -x; _v = 2 * x + 1; _v = 3 * z; end G4;", "G4"),
     ("model G5 Real y; Real w; Real _s; equation der(_s) = -y; _s = 3 * y; _s = 2 * w; end G5;", "G5"),
     ("model G6 Real x; Real _a; Real _b; equation der(x) = _a; _a = _b; _b = x + 1; _a = 2 * x - _b + 1; end G6;", "G6"),
+    ("model G7 Real a; Real b; Real _v; Real s; equation der(s) = -s; _v = a + b; _v = 0; a = 2 * s; end G7;", "G7"),
+    # an alias that only appears in a later pass (after constants have been propagated) and unseats an earlier canonical variable negatively
+    ("model G8 Real a; Real b; Real y; Real c; Real d; Real s; equation der(s) = -s; b = a; b + y = c; c = d; d = 0; y = 2 * s; end G8;", "G8"),
 ]
-MUST_SIMPLIFY = {"G0", "G1", "G2", "G3", "G4", "G5", "G6"}
+MUST_SIMPLIFY = {"G0", "G1", "G2", "G3", "G4", "G5", "G6", "G7", "G8"}
 
 
 def count(m):
@@ -57,7 +60,8 @@ def main():
     models = FIXED + [(S.gen_model(rng, i)[0], "M%d" % i) for i in range(12 if tier == "quick" else 120)]
     failures, n, nontrivial = [], 0, 0
     for txt, name in models:
-        for opts in S.option_sets(tier) + [dict(expand_mx=True, detect_aliases=True, allow_derivative_aliases=False)]:
+        for opts in S.option_sets(tier) + [dict(expand_mx=True, detect_aliases=True, allow_derivative_aliases=False),
+                                           dict(expand_mx=True, detect_aliases=True, eliminate_constant_assignments=True, replace_constant_values=True, iterative_simplification=True)]:
             n += 1
             try:
                 bad, status = judge(txt, name, opts)
